@@ -62,6 +62,7 @@ type jop struct {
 	Err string     `json:"err,omitempty"`
 }
 type jcase struct {
+	Cold bool    `json:"cold,omitempty"` // no warm-up write: the first writes race with Cache.init (C09's finding)
 	Plan [][]jop `json:"plan"`           // per goroutine: the ops it will issue
 	Hist []jop   `json:"hist,omitempty"` // observed history
 	Lin  []int   `json:"lin,omitempty"`  // linearisation found (indices into Hist)
